@@ -83,6 +83,14 @@ class Explorer:
         cn = cmp_norm(c)
         if cn is not None:
             pred, x, y = cn
+            if y[0] == 'const' and pred in ('slt', 'sle', 'sgt', 'sge', 'ult', 'ule', 'ugt', 'uge'):
+                if (x[0] == 'load' and self.cell_of(x[1]) is not None) or self.val_of(x) is not None:
+                    v = self.absval(x, st, prev)
+                    if isinstance(v, int) and not isinstance(v, bool):
+                        k = y[1]
+                        r = {'slt': v < k, 'sle': v <= k, 'sgt': v > k, 'sge': v >= k,
+                             'ult': v < k, 'ule': v <= k, 'ugt': v > k, 'uge': v >= k}[pred]
+                        return r == pol
             if y[0] in ('const', 'null') and pred in ('eq', 'ne'):
                 tracked = (x[0] == 'load' and self.cell_of(x[1]) is not None) or self.val_of(x) is not None
                 if not tracked and x[0] == 'phi' and prev is not None:
@@ -103,7 +111,7 @@ class Explorer:
                 return ('fact', name, r == pol)
         return None
 
-    def explore(self, init_states, on_call=None, on_store=None, start=None, stop_blocks=()):
+    def explore(self, init_states, on_call=None, on_store=None, start=None, stop_blocks=(), on_insn=None):
         """init_states: list of {'cells': {...}, 'facts': {...}}.  on_call(ins, state) is invoked for every call
         instruction reached; returning 'stop' ends that path.  Returns list of (exit kind, block, state)."""
         f = self.f
@@ -152,6 +160,8 @@ class Explorer:
                     continue
             halted = False
             for ins in b.insns:
+                if on_insn is not None and ins.op not in ('dbg', 'phi'):
+                    on_insn(ins, st)
                 if ins.op == 'store':
                     n = self.cell_of(self.P.addr(ins.ops[1]))
                     if n is not None:
